@@ -43,7 +43,7 @@ CHECKS["C19"] = {
              " R19.7: an endpoint's getData returns None or a value produced by this very receive on every path; a stored field that is not written on the path (the previous message) is never returned."
              " R19.8: a field of the hub that spin both tests and writes (a latch) has its initial value again on every exit of spin on which it was written."
              ' R19.9: sendData of every endpoint class and of the hub transmits whatever the message is - no path that skips the transmission is selected by a test of the message value (identity tests against None excepted), so falsy payloads such as the empty string of a zero-length datagram are not dropped.'
-             ' R19.10: openAll / closeAll call openCom / closeCom on every endpoint in every round of the loop (not short-circuited by, or conditional on, what earlier endpoints returned).'),
+             ' R19.10: openAll / closeAll call openCom / closeCom on every endpoint in every round of the loop (not short-circuited by, or conditional on, what earlier endpoints returned). R19.11: Comms.getCom returns None or the endpoint-table entry stored under its argument (an endpoint is known exactly under its table key, which is what spin and getData go by). R19.9 counts only calls that hand the message on as transmissions (len / isinstance / str of it are inspections).'),
     "note": ("Trusted: endpoints honour the CommsObject interface; real socket behaviour (shutdown on an unconnected UDP "
              "socket etc.) is not modelled."),
 }
@@ -61,7 +61,7 @@ CHECKS["C12"] = {
              "on the SE(3) algebra decided under C01/C04 and are not themselves decided. Also (R12.5): closure obligations on the primitives under changeFrame; identity-element branches (x + 0, x * 1) are recognised as value-preserving. R12.6: a 6-element array operand of + / - (either side) meets the 6x1 payload as a column (case analysis on isinstance(other, np.ndarray) and len(other) == 6), so (a + b) - b = a holds for array b."
              " R12.7: operator dispatch - when a subclass of Screw overrides a reflected + / -, Python answers `Screw <op> Subclass` with that method first; the Screw-operand branch it reaches (through super() if it delegates) must reconcile the frames, not combine the raw payloads."
              " R12.8: the frame equality behind the `frame == frame` short circuits of changeFrame / + / - (tm.__eq__) has an absolute closeness threshold <= 1e-8 and no larger relative part (allclose / isclose / max-abs / norm forms with constant tolerances), so two different frames are never treated as one beyond the property's bound."
-             ' R12.9: Wrench(...) calls inside class Wrench either wrap a value known to be a Screw (whose frame is adopted) or carry self.frame_applied in the frame slot, on every path - a raw payload wrapped without it records the identity frame.'),
+             ' R12.9: Wrench(...) calls inside class Wrench either wrap a value known to be a Screw (whose frame is adopted) or carry self.frame_applied in the frame slot, on every path - a raw payload wrapped without it records the identity frame. R12.10: fsr.transformWrenchFrame re-expresses a copy - no write to the source wrench\'s data or recorded frame (may-write summaries, metadata included), one changeFrame(new frame, old frame) per returning path, applied to what is returned.'),
     "note": "Trusted: globalToLocal(a,b)=inv(a)*b and adjoint() (decided under C01/C04); NumPy broadcasting semantics.",
 }
 
@@ -80,7 +80,7 @@ CHECKS["C16"] = {
              " R16.6 also: generateTree hands generalGenerateTree the planner's own distance and obstruction applied to exactly the two nodes (a pre-filtered obstruction subset is a violation)."
              ' R16.9 accepts copies of the pose (tm(p), p.copy()) and reports any call that rewrites the pose (or the copy the coordinates are read from) between getPosition() and the index call.'
              ' R16.11: RRTStar.distance is the per-call selection between arcDistance (dmode 1) and distance (normal-form equality, with a path-summary fallback), nothing remembered between calls.'
-             ' R16.12: PathNode defines no pickling / copying hook - the R-tree hands back unpickled copies, which must carry the bookkeeping the planner assigned.'),
+             ' R16.12: PathNode defines no pickling / copying hook - the R-tree hands back unpickled copies, which must carry the bookkeeping the planner assigned. R16.6 also closes setParent\'s effects over node-method calls on ANY receiver (parent.setChild -> previous.removeChild -> child.cost): no stored cost is rewritten behind the growth loop.'),
     "note": "Trusted: purity of caller-supplied callbacks; rtree nearest() (library).",
 }
 
@@ -151,6 +151,7 @@ CHECKS["C17"] = {
              " R17.1 also checks kernel-to-kernel call arguments: a slice passed to another kernel (Norm(Vs[3:5])) must have the extent that kernel's contract reads."
              " R17.3: direction of the (screw table, joint vector) contract - the seven kernels taking both are re-analysed with cols(table) = n + slack, slack >= 0: every index must stay in bounds when the table has more columns than the vector has entries (the Python layers pass the whole table with a caller-length vector)."
              ' R17.1 also reports an index whose bound against a contract extent cannot be signed when the smallest admissible size (1 for an extent, 0 for slack) is a witness for which the index lies outside (e.g. a loop over the 6 rows of the screw table indexing the joint vector).'
+             ' The length of a float-step np.arange is an extent of its own (NumPy computes it in floating point and documents that it can be one off): a loop counted by it may index only arrays of that same extent.'
              ' R17.4: an explicit @jit signature declares no integer scalar type for a parameter the kernel uses as a value (arithmetic, stored, returned, passed on) - Numba would truncate a real argument silently in the compiled kernel only.'),
     "note": "Trusted: shape contracts in sa/engine/mrspec.py (docstrings); Numba code generation; callers not analysed pass arrays that satisfy the contracts.",
 }
@@ -171,7 +172,7 @@ CHECKS["C05"] = {
              " R05.12: no kernel or helper that an Arm method hands a view of its stored joint vector to (angleMod hands its argument back, reshape is a view) writes into that argument (effects summary of the callee)."
              " R05.12 also covers stores the method itself makes into such a view."
              ' The joint-limit clamp is decided by exhaustive case analysis (sa/rules/clampcase.py): thetaProtector is interpreted element-wise on one representative per order cell of (joint value, lower limit, upper limit, numeric constants in the code) with np.any guards explored both ways; in every cell the result must be the clamp to the stored limits. R05.14: the body screw list is re-derived from the current home pose and space screws after the last write of either (typestate shared with C06 R06.1).'
-             ' R05.15: restoreOriginalEE stores the original home tool pose on every path (a skipping path only under equality of the two poses as whole transforms).'),
+             ' R05.15: restoreOriginalEE stores the original home tool pose on every path (a skipping path only under equality of the two poses as whole transforms). R05.16: wherever a joint argument defaulting to None is replaced from the stored joint vector, the replacement is that vector itself (copy / reshape / angle wrap only), also through a resolving helper that hands its argument back.'),
     "note": "Trusted: FKinSpace (C02); parameters documented as transforms are transforms; num_dof >= 1.",
 }
 
@@ -203,7 +204,7 @@ CHECKS["C07"] = {
              "the reference). Local convergence and 'unreachable => error above tolerance' are numerical and not decided. Also: R07.6 (effects summary) no IK kernel writes the storage of the start vector it is given, so a failed solve cannot move the arm's stored joints; R07.7 closure obligations on the primitives the solvers reach."
              " R07.8: on the success path of IKFree the pose compared with the goal is FK of the joint vector that is returned (not the solver's residual of a clamped evaluation). R07.9: the limit-respecting kernel clamps the start vector before its first error evaluation (or every caller hands it a vector drawn inside the limits), so a solve that stops at iteration 0 cannot return joints outside the limits."
              " R07.10: Arm.FK, through which every solver exit writes the state, stores the joint vector it evaluated (the clamped one when it clamps) together with the pose of that vector."
-             ' R07.10 includes the clamp case analysis. R07.11: a method that returns the array it handed to self.FK(...) (IKFree) relies on the clamp working in place - the case analysis also tracks whether the array returned on a clamping path is the argument object.'),
+             ' R07.10 includes the clamp case analysis. R07.11: a method that returns the array it handed to self.FK(...) (IKFree) relies on the clamp working in place - the case analysis also tracks whether the array returned on a clamping path is the argument object. R07.12: Arm methods that solve through self.IK / constrainedIK / IKFree (move with a stationary tool) leave the solver\'s state: no store to joints / tool pose / home / screws after the solve reaches an exit without FK.'),
     "note": "Trusted: FKinSpace/JacobianSpace/MatrixLog6/Adjoint (C01/C02); documented parameter roles.",
 }
 
@@ -233,7 +234,10 @@ CHECKS["C14"] = {
              "port) the set of parameters whose storage may be written is within the documented in-place targets; the payload "
              "returned by operators/copies/accessors has no origin in an operand (no shared storage); mutable constructor "
              "defaults never become payload. This is a may-analysis: it can only err towards reporting, and unknown external "
-             "callees are assumed read-only (stated)."),
+             "callees are assumed read-only (stated)."
+             " R14.4: an array parameter a robot method hands to a ported Modern Robotics function is not altered by that method afterwards, directly or through the "
+             "function's result (result -> argument aliases of the callee summaries, threaded through tuple unpacking; documented joint clamping excepted): a solver that "
+             "returns its start vector unchanged on a path would make the caller's in-place angle wrapping a write to the user's array."),
     "note": "Trusted: NumPy view/copy semantics table (sa/engine/alias.py); external callees (NumPy/SciPy) do not write their arguments.",
 }
 
@@ -251,6 +255,7 @@ CHECKS["C18"] = {
              "builds a right-handed frame. Geodesic/metric relations as numbers and the optimiser-based helper are not decided. Helper formulas (IKPath, closeLinearGap, midpoint, lookAt, chainJacobian, tripleUnit) are decided by normal-form equality with reference implementations written from the definitions; R18.7 closure obligations."
              " R18.2 also bounds the in-place stores of tm.angleMod to the rotation rows 3..5 of the six-vector. R18.4 decides lookAt structurally when it is not written like the reference: on every returning path the result is tm(M) with the position kept, z = unit(target - position), y = z x x and x a unit vector orthogonal to z (unit(u x z), or a constant unit vector orthogonal to u only under a fact that |u x z| vanishes)."
              ' R18.9 accepts any common displacement of the two probes (the step parameter or one expression used on both sides) and requires the quotient to divide by twice that very displacement.'
+             ' R18.4 also holds closeArcGap to its reference form: origin @ TAAtoTM(unit six-vector of (goal - origin) * delta), normalised by the 6-norm of that difference. R18.9 resolves named (half) steps inside the divisor.'
              ' R18.10: no helper of faser_general / basic_helpers that returns an array, list or transform carries a memoising decorator (lru_cache, cache, ...): results are fresh objects on every call.'),
     "note": "Trusted: exp/log primitives (C01); NumPy element-wise semantics.",
 }
@@ -269,6 +274,7 @@ CHECKS["C04"] = {
              " R04.1 also: nothing a constructor form calls on self rewrites the translation rows of the six-vector in place (in-place stores of mutators such as angleMod are bounded to rows 3..5)."
              " R04.6: the constructor forms give the new transform arrays of its own (TM / TAA are never views of the argument, by the NumPy view / copy table; the reference-keeping setters are not handed an argument)."
              " R04.7: no method of tm stores a computed value in place into a local array whose dtype follows the caller's argument (np.array(x) / reshape / copy without a float dtype), so integer descriptions build the same transform as float ones; element-flow values that an in-place store makes unknown give no verdict (exit 2) instead of a comparison."
+             ' R04.2 judges the localToGlobal / globalToLocal wrappers per returning path: the kernel call with (reference, rel) in order, or a shortcut handing back a copy of one operand on a path that establishes that the OTHER operand is the identity through its whole six-vector (Norm6 / all elements - not mr.Norm, the 3-vector norm).'
              ' R04.8: the two sync functions every constructor form ends in are held to their definitions on all paths (TMtoTAA = [p; vee(log(R))] for every rotation - no shortcut branch); the rule function of C03 R03.2 run under this property.'),
     "note": "Trusted: exp/log/TransInv (C01/C02); scipy Rotation default quaternion convention.",
 }
@@ -306,7 +312,7 @@ CHECKS["C13"] = {
              " R13.5: Arm.FK evaluates the loaded chain at the joint vector it is given or at its clamp to the limits only (no folding of in-limit joint values before the product of exponentials)."
              ' R13.6: every Modern-Robotics primitive in the callee closure of the loader, class tm and Arm.FK (exp / log of rotations that the accumulated joint poses go through) has the normal form of the pinned reference.'
              " R13.5 includes the clamp case analysis: joint values inside the file's limits reach the product of exponentials unchanged, whatever their magnitude."
-             ' R13.7: Arm.setJointProperties stores the limits it is given unchanged (value-preserving wrappers only), so the loaded arm reports and clamps against the limits written in the file.'),
+             ' R13.7: Arm.setJointProperties stores the limits it is given unchanged (value-preserving wrappers only), so the loaded arm reports and clamps against the limits written in the file. R13.8: on the load path the poses that become the home tool matrix are composed as matrices (A @ B, tm(matrix)), never through localToGlobal / globalToLocal, whose exp(log(.)) rebuild is only accurate to ~1e-5 near a half turn (rpy 3.14159).'),
     "note": "Trusted: ElementTree parsing; tm composition (C04); the chain is strictly serial (as the property states).",
 }
 
@@ -324,7 +330,7 @@ CHECKS["C09"] = {
              " R09.6: the leg lengths _IKHelper hands back are a snapshot (copy) of self.lengths, so the corrective action on the stored lengths cannot rewrite the vector already returned to the caller."
              " R09.7: no array object is bound both to a plate-fixed joint table and to a space-joint buffer that the IK kernel writes in place."
              ' R09.8: move(new base) - the pose expression handed to IK is evaluated as a word in the free group over the poses involved (A @ B, inv, localToGlobal = a*b, globalToLocal = inv(a)*b, getters read in place, fields versioned along every branch) and must be new_base * inv(old base) * old top, solved against the new base.'
-             ' R09.9: SP.FK runs a forward-kinematics solver on every returning path (a shortcut only for lengths exactly equal to the stored ones).'),
+             ' R09.9: SP.FK runs a forward-kinematics solver on every returning path (a shortcut only for lengths exactly equal to the stored ones). R09.10: no function of the platform module exchanges rows of a rank >= 2 array through a tuple assignment of views (both rows would end up equal - one joint pattern on both plates).'),
     "note": "Trusted: convergence of SPFKinSpaceR's Newton iteration and its Jacobian (not analysed numerically); the bound leg_ext_min/2 on the height floor is taken from the kernel as exercised; tokens name one pose value per path.",
 }
 
@@ -358,7 +364,7 @@ CHECKS["C11"] = {
              " R11.5: getActuatorLoc(i, 't'/'b') is getUnitVec(own joint of leg i, other joint of leg i, configured offset) with the offset the configured constant itself (never a function of the current leg length), and getUnitVec is first point + unit(second - first) * distance (reference comparison)."
              " R11.6: every path of the four statics methods of Robot records the forces it worked with in self._last_tau, whatever optional arguments it was called with (sumActuatorWrenches() and the other force queries default to it)."
              " R11.2: constant-trip loops containing `continue` are lowered to branches before unrolling; a leg left out exactly when its force is zero counts as contributed, any other condition under which a leg's wrench is skipped is reported with that condition."
-             ' R11.7: the leg wrenches are forces at points for every magnitude - makeWrench / Wrench construction held to [p x f ; f] on all paths (rule function of C12 R12.3 run under this property).'),
+             ' R11.7: the leg wrenches are forces at points for every magnitude - makeWrench / Wrench construction held to [p x f ; f] on all paths (rule function of C12 R12.3 run under this property). R11.8: backward def-use flow (sa/rules/roleflow.py) from the fields the mass-carrying statics reads, through the setters and newSP, to the definition entries read by loadSP: <C>Mass entries reach the mass field and <C>COGD entries (or lengths inferred from the extensions) the centre-of-gravity field of the SAME component, on every loader path.'),
     "note": "Trusted: makeWrench / Wrench layout (C12); Robot statics table (C06).",
 }
 
